@@ -113,7 +113,8 @@ class FixedAgent(Agent, FixedCell):
 
         # fixme we leave self._mesa_cell on the original value
         #  so you cannot hijack remove() to move patches
-        self.cell.remove_agent(self)
+        if self.cell is not None:
+            self.cell.remove_agent(self)
 
 
 class Grid2DMovingAgent(CellAgent):
